@@ -418,7 +418,7 @@ def run(ctx, rep):
     if helper is not None:
         lp = [n for n in walk_no_nested(helper.node) if isinstance(n, ast.For)]
         rets2 = [n for n in walk_no_nested(helper.node) if isinstance(n, ast.Return) and isinstance(n.value, ast.Tuple)]
-        ok = False
+        ok = None
         if len(lp) == 1 and rets2 and isinstance(lp[0].iter, ast.Name) and lp[0].iter.id == helper.params[0]:
             names = [e.id for e in rets2[0].value.elts if isinstance(e, ast.Name)]
             cnt = {n: 0 for n in names}
@@ -427,12 +427,64 @@ def run(ctx, rep):
                         and isinstance(s.value.func.value, ast.Name) and s.value.func.value.id in cnt:
                     cnt[s.value.func.value.id] += 1
                     # each curve is computed from this iteration's copula
-                    uses = [x for x in ast.walk(s.value) if isinstance(x, ast.Name) and x.id == lp[0].target.id]
-                    if not uses:
+                    def mentions_candidate(e_, depth=0):
+                        """the appended value is computed from this iteration's copula, possibly through locals of the loop body"""
+                        for x in ast.walk(e_):
+                            if isinstance(x, ast.Name) and x.id == lp[0].target.id:
+                                return True
+                            if isinstance(x, ast.Name) and depth < 3:
+                                for a_ in lp[0].body:
+                                    if isinstance(a_, ast.Assign) and any(isinstance(t_, ast.Name) and t_.id == x.id for t_ in a_.targets) and mentions_candidate(a_.value, depth + 1):
+                                        return True
+                        return False
+                    if not mentions_candidate(s.value):
                         cnt[s.value.func.value.id] += 100
             ok = bool(names) and all(v == 1 for v in cnt.values()) and not any(isinstance(x, (ast.Continue, ast.Break)) for x in ast.walk(lp[0]))
-        rep.check('D3.index', helper, helper.node.name, ok, 'one curve per candidate per list, in candidate order',
-                  'the tail curves are not produced one per candidate in candidate order', construct='co-ordered curves')
+        # each curve is the candidate's CDF on the diagonal of the grid it is compared on: C(z, z) is evaluated at the z the curve is
+        # handed over with (left curve: divided by left_tail ** 2; right curve: _compute_tail(C(z, z), z))
+        from ..idioms import single_def as _sd
+
+        def grids_of(e_, depth=0):
+            """names of the grids the CDF values in e_ were evaluated on: cdf(column_stack((z, z))) -> {z}; None when not derived"""
+            if depth > 12:
+                return None
+            if isinstance(e_, ast.Name):
+                defs = [a_.value for a_ in walk_no_nested(helper.node) if isinstance(a_, ast.Assign) and any(isinstance(t_, ast.Name) and t_.id == e_.id for t_ in a_.targets)]
+                if not defs:
+                    return None
+                out = set()
+                for d_ in defs:
+                    g_ = grids_of(d_, depth + 1)
+                    if g_ is None:
+                        return None
+                    out |= g_
+                return out
+            if isinstance(e_, ast.IfExp):
+                a_, b_ = grids_of(e_.body, depth + 1), grids_of(e_.orelse, depth + 1)
+                return None if a_ is None or b_ is None else a_ | b_
+            if isinstance(e_, ast.Call) and call_name(e_) in ('cumulative_distribution', 'cdf') and e_.args:
+                return grids_of(e_.args[0], depth + 1)
+            if isinstance(e_, ast.Call) and call_name(e_) == 'column_stack' and e_.args and isinstance(e_.args[0], (ast.Tuple, ast.List)):
+                names_ = {x.id for x in e_.args[0].elts if isinstance(x, ast.Name)}
+                return names_ if len(names_) == 1 and len(e_.args[0].elts) == 2 else None
+            return None
+        for c_ in walk_no_nested(helper.node):
+            if isinstance(c_, ast.Call) and len(c_.args) == 2 and isinstance(c_.args[1], ast.Name) and c_.args[1].id in helper.params \
+                    and prog.resolve(helper.module, c_.func) in prog.functions:
+                g_ = grids_of(c_.args[0])
+                z_ = c_.args[1].id
+                if g_ is None:
+                    continue
+                if g_ != {z_}:
+                    rep.bad('D3.index', helper, c_, f'`{short(c_, 70)}`: the curve handed over with the grid `{z_}` holds CDF values evaluated on the diagonal of '
+                            f'{sorted(g_)} (on some path): the tail function is computed from values of another grid', construct='curve and grid agree')
+                else:
+                    rep.ok('D3.index', helper, c_, f'C(z, z) and z = {z_} agree', construct='curve and grid agree')
+        if ok is None:
+            rep.undecided('D3.index', helper, helper.node.name, 'how the tail curves of the candidates are produced was not recognised', construct='co-ordered curves')
+        else:
+            rep.check('D3.index', helper, helper.node.name, ok, 'one curve per candidate per list, in candidate order',
+                      'the tail curves are not produced one per candidate in candidate order', construct='co-ordered curves')
     # tail layout of the compared curves
     sd = SideKind(ctx)
     sd.roles = helper_roles(ctx, fn)
@@ -451,6 +503,11 @@ def run(ctx, rep):
     if ce is not None:
         rets_ = [n for n in walk_no_nested(ce.node) if isinstance(n, ast.Return) and isinstance(n.value, ast.Tuple)]
         names_ = [getattr(e, 'id', '') for e in rets_[0].value.elts] if rets_ else []
+
+        split = None
+        for a0 in walk_no_nested(ce.node):
+            if isinstance(a0, ast.Assign) and isinstance(a0.value, ast.Call) and call_name(a0.value) == 'split_matrix' and isinstance(a0.targets[0], (ast.Tuple, ast.List)):
+                split = [e_.id for e_ in a0.targets[0].elts if isinstance(e_, ast.Name)]
 
         def tail_of(listname):
             """'left' (lower tail: built from `<=` comparisons of the data with the grid) / 'right' (`>=`) / '?', from what is
@@ -474,7 +531,19 @@ def run(ctx, rep):
                     seen.add(nm_)
                     for a_ in walk_no_nested(ce.node):
                         if isinstance(a_, ast.Assign) and any(isinstance(t_, ast.Name) and t_.id == nm_ for t_ in a_.targets):
-                            ops = {type(o_) for x in ast.walk(a_.value) if isinstance(x, ast.Compare) for o_ in x.ops}
+                            # oriented: the data column on the left of the comparison (`base[k] >= U` is `U <= base[k]`)
+                            data_names = set(split) if split else set()
+                            ops = set()
+                            for x in ast.walk(a_.value):
+                                if isinstance(x, ast.Compare) and len(x.ops) == 1:
+                                    o_ = type(x.ops[0])
+                                    right_is_data = any(isinstance(y, ast.Name) and y.id in data_names for y in ast.walk(x.comparators[0]))
+                                    left_is_data = any(isinstance(y, ast.Name) and y.id in data_names for y in ast.walk(x.left))
+                                    if right_is_data and not left_is_data:
+                                        o_ = {ast.Lt: ast.Gt, ast.Gt: ast.Lt, ast.LtE: ast.GtE, ast.GtE: ast.LtE}.get(o_, o_)
+                                    ops.add(o_)
+                                elif isinstance(x, ast.Compare):
+                                    ops.update(type(o_) for o_ in x.ops)
                             if ops and ops <= {ast.LtE, ast.Lt}:
                                 found.add('left')
                             elif ops and ops <= {ast.GtE, ast.Gt}:
